@@ -111,8 +111,10 @@ fn new_tx_data(tx: &elements::Transaction, in_utxos: &[ElementsUtxo]) -> RawTran
     for (inp, in_utxo) in tx.input.iter().zip(in_utxos.iter()) {
         let inp_data = RawInputData {
             annex: get_annex(&inp.witness).map(|s| s.to_vec()),
+            // Only a pegin input has a parent genesis hash, whatever its witness contains
             genesis_hash: inp
                 .pegin_data()
+                .filter(|_| inp.is_pegin)
                 .map(|x| x.genesis_hash.to_raw_hash().to_byte_array()),
             issuance_amount: serialize(&inp.asset_issuance.amount),
             issuance_inflation_keys: serialize(&inp.asset_issuance.inflation_keys),
